@@ -60,6 +60,13 @@ CLAIMED["C20"] = dict(
     note="Trusted: as C03. A file that no longer parses at HEAD makes 'remaining' ambiguous: expectations that differ between counting and not counting its rules are skipped (counted in the evidence). No faults are injected.",
 )
 
+CLAIMED["C17"] = dict(
+    design="5.8",
+    technique="deterministic simulation with fault injection: real reporter.Submit with the real GitHub (go-github) and GitLab (client-go + retryablehttp) reporters over an in-memory network against stateful simulated platforms, multi-round histories (developer pushes, foreign comments, replies in pint's threads) with API faults, rate limits, stalls and crashes after the k-th request under a fake clock; safety, coverage, convergence and idempotence checked against the simulated store",
+    text="Each round the developer may push to a real scratch repository; the problems come from pint's real CI discovery and checks on those files, the platform's file patches from `git diff`. The run's API requests meet 5xx, 429 / 403 rate limits with reset headers, stalled responses and a crash (everything after the k-th request is refused; only the store survives). After every run: nothing equal to an existing comment was created (positioned or general), nothing foreign or still-reported was deleted, creations stay within maxComments. After every completed run: every problem on a PR file is covered by one of pint's comments or the budget was exhausted; on GitLab no stale pint comment remains. After pushes and faults stop, runs must go quiet within ceil(pending/maxComments)+1 runs and stay quiet (two consecutive runs that create and delete nothing), and nothing deleted may be re-created for the same commit.",
+    note="Trusted: the simulated GitHub / GitLab REST servers (stubs modelling comment identity, diff-line validation, body normalisation, pagination, thread replies), git 2.39 (real). No scheduler is needed (the client is sequential); the bubble supplies the fake clock for timeouts, back-off and rate-limit sleeps. Comment placement is demanded only when every line of the problem was added by the diff. Lost acknowledgements are supported by the stub but not part of the quantifier and not generated.",
+)
+
 NA = {
     "C01": "pure function of the file bytes (agreement of two acceptors): no schedule, clock, fault or peer for a simulator to own; deciding it is differential input generation, which this task's technique family excludes",
     "C02": "totality of a pure function of (bytes, parser mode): nothing time-, schedule- or fault-dependent in the anchored code",
